@@ -680,8 +680,15 @@ class Condition(ConditionLike):
                     if not result_i:
                         callable_false_i = True
 
-                except (TypeError, AttributeError, ArithmeticError, ValueError):
+                except (
+                    TypeError,
+                    AttributeError,
+                    ArithmeticError,
+                    ValueError,
+                    LookupError,
+                ):
                     # e.g. modulo by a zero datum, or `%` applied to a string datum
+                    # (incl. a `%(key)s` directive against a mapping argument)
                     callable_error_i = True
 
             pre_processor_error.append(pre_processor_error_i)
